@@ -146,6 +146,10 @@ def make_judges(ctx):
             i = int_bits(rv, signed)
             e_frac = n_frac
             e_word = n_frac + i + s
+            if e_word > MAXW:
+                # the word is capped at the maximum: the integer part is kept, fraction bits are given up
+                e_frac = MAXW - s - i
+                e_word = MAXW
         e_word = min(e_word, MAXW)
         if (post.signed, post.n_word, post.n_frac) != (signed, e_word, e_frac):
             ctx.violation('format', 'Fxp(%s, signed=%r, given %s) inferred %s, the minimal exact format is %s' % (
@@ -251,6 +255,29 @@ def run_case(case, ctx):
         # only n_frac
         for nf in {nfe, nfe + rng.randint(1, 4), max(0, nfe - rng.randint(1, 3)), 0}:
             _try(lambda: Fxp(val, n_frac=nf, **kw))
+        # the same values in other numeric carriers (inference must not depend on the dtype the values arrive in)
+        alts = []
+        for kind in ('np:float32', 'np:float16', 'np:int8', 'np:int16', 'np:int32', 'np:int64', 'np:uint8', 'np:uint16', 'np:uint32', 'pyint'):
+            if all(G.can_carry(v, kind) for v in vals):
+                if form == 0:
+                    alts.append(G.element(vals[0], kind))
+                    alts.append([G.element(vals[0], kind)])
+                else:
+                    alts.append(G.build_carrier(vals, kind, '1d'))
+                    alts.append(G.build_carrier(vals, kind, 'list'))
+        rng.shuffle(alts)
+        for alt in alts[:4]:
+            _try(lambda: Fxp(alt, **kw))
+            _try(lambda: Fxp(alt, n_frac=nfe + rng.randint(0, 5), **kw))
+            _try(lambda: Fxp(alt, n_frac=rng.randint(8, 24), **kw))
+            _try(lambda: Fxp(alt, n_word=nfe + ib + s + rng.randint(0, 3), **kw))
+        # integers whose code at the given fraction length needs 63 / 64 / 65 bits
+        if form == 0 and vals[0].denominator == 1 and vals[0] != 0:
+            bl = abs(int(vals[0])).bit_length()
+            for tot in (62, 63, 64):
+                if tot - bl >= 0:
+                    _try(lambda: Fxp(int(vals[0]), n_frac=tot - bl, **kw))
+        _try(lambda: Fxp(0, n_frac=63, **kw))
         # n_int with one other size
         _try(lambda: Fxp(val, n_frac=nfe, n_int=ib + rng.randint(0, 3), **kw))
         _try(lambda: Fxp(val, n_word=nfe + ib + s + 2, n_int=ib + 1, **kw))
